@@ -278,7 +278,7 @@ pub fn run(ctx: &mut Ctx) {
     }
     // verdicts that depend on data movement (gen::layout_verdict_plan)
     {
-        let want = ctx.scale(2500, 100_000);
+        let want = ctx.scale(10_000, 200_000);
         let mut done = 0;
         for _ in 0..5 * want {
             if done >= want {
